@@ -165,7 +165,11 @@ func genInventory(c *ctx) (string, error) {
 						site("slice", exprString(c, x), g.guardOfSlice(x, stack, fd), x.X)
 					case *ast.StarExpr:
 						if tv, ok := p.TypesInfo.Types[x]; ok && !tv.IsType() {
-							site("deref", exprString(c, x), g.guardOfDeref(x, stack), x.X)
+							gd := g.guardOfDeref(x, stack)
+							if gd == "" && g.receiverNeverNil(x.X, fd) {
+								gd = "receiver-of-addressable-values"
+							}
+							site("deref", exprString(c, x), gd, x.X)
 						}
 					case *ast.TypeAssertExpr:
 						if x.Type != nil && !commaOk(x, stack) {
